@@ -529,6 +529,11 @@ func (r *RowCache) uuidsByConditionsAsIndexes(conditions []ovsdb.Condition, nati
 		if condition.Function == ovsdb.ConditionIncludes && isSet {
 			return nil
 		}
+		// an optional value is a set of at most one element, every row
+		// includes the empty one
+		if condition.Function == ovsdb.ConditionIncludes && v.Kind() == reflect.Ptr && v.IsNil() {
+			return nil
+		}
 		keys := []interface{}{}
 		if v.Kind() == reflect.Map && condition.Function == ovsdb.ConditionIncludes {
 			for _, key := range v.MapKeys() {
